@@ -1882,6 +1882,12 @@ static void get_user_data (interactive_t* ip, io_event_t* evt) {
           text_space = (MAX_TEXT - ip->text_end - 1) / 3;
           if (text_space < MAX_TEXT / 16)
             {
+              /* Complete commands are still waiting for their turn: leave the
+               * new data in the socket (poll is level-triggered, and one command
+               * is consumed per backend cycle) instead of throwing them away.
+               */
+              if (!(evt && evt->buffer) && cmd_in_buf (ip))
+                return;
               /* We've got almost 2k of data without a newline.
                * Discard buffer to prevent DoS from extremely long lines.
                */
